@@ -70,6 +70,8 @@ type Shell struct {
 	insertName   string                 /* Loggable name for insertGen. */
 	wL           sync.Mutex             /* Write lock. */
 
+	lastSend chan struct{} /* Closed after the latest thing entered is sent. */
+
 	silenced       bool        /* Don't write plain messages for a bit. */
 	silenceTimer   *time.Timer /* Unsilences after output's quiet. */
 	lastPlainWrite time.Time   /* Last attempted write. */
@@ -151,7 +153,8 @@ func New(
 				)
 			}()
 		case 0x09: /* ^I, paste from file. */
-			go s.insert()
+			wait, done := s.sendTurn()
+			go s.insert(wait, done)
 		case 0x0a: /* ^J, like ^I but just locally. */
 			go s.pretendInsert()
 			/* This is left here but commented out to make it that
@@ -220,8 +223,11 @@ func (s *Shell) Do(ctx context.Context) error {
 			if nil != err {
 				return err
 			}
-			/* Send it out. */
+			/* Send it out, after anything entered before it. */
+			wait, done := s.sendTurn()
+			wait()
 			s.ich <- l
+			done()
 		}
 		return context.Cause(ectx)
 	})
@@ -232,6 +238,24 @@ func (s *Shell) Do(ctx context.Context) error {
 	/* Wait for something to go wrong. */
 	return eg.Wait()
 
+}
+
+// sendTurn is used to send things to s.ich in the order in which they were
+// entered.  The returned wait function blocks until everything entered earlier
+// has been sent (or given up on) and the returned done function must be called
+// after the caller has sent (or given up).  sendTurn itself must only be called
+// from the goroutine which calls s.t.ReadLine, which is also the goroutine
+// which runs the terminal's key callbacks.
+func (s *Shell) sendTurn() (wait, done func()) {
+	prev, mine := s.lastSend, make(chan struct{})
+	s.lastSend = mine
+	wait = func() {
+		if nil != prev {
+			<-prev
+		}
+	}
+	done = func() { close(mine) }
+	return wait, done
 }
 
 // resize resizes t to the size of its underlying TTY.
